@@ -1,6 +1,7 @@
 import Restli.Proofs.NoPanic
 import Restli.Proofs.Fuel
 import Restli.Proofs.AnyReader
+import Restli.Proofs.QueryParams
 /-! # C04 — decoder robustness (ROR2 readers and generated unmarshalers)
 
 The reader model transliterates every Go index expression `u.data[u.pos]` / slice as a match
@@ -57,6 +58,13 @@ generated unmarshalers take a panic branch (what the lexer does with the others 
 theorem c04_json_reader_never_panics (env : Env) (tr : Tracker) (ty : Ty) (data : Bytes) :
     unmarshalJson { env := env, tracker := tr } ty data ≠ some .panic :=
   unmarshalJson_ne_panic _ rfl ty data
+
+/-- **the query-parameters reader** (`ParseQueryParams` + `QueryParamsReader.ReadRecord` driving a
+record's generated `UnmarshalField`, every parameter read by its own ROR2 reader): on every query
+string, for every schema and record type, a value or an error — no panic branch, never out of fuel -/
+theorem c04_query_reader_total (env : Env) (n : TName) (q : Bytes) :
+    unmarshalQuery env n q ≠ .panic ∧ unmarshalQuery env n q ≠ .fuel :=
+  unmarshalQuery_total env n q
 
 /-- the tree reader with any leaf semantics that does not panic itself -/
 theorem c04_tree_reader_never_panics (c : TCfg) (hs : SemNoPanic c.sem) (t : Json.JVal) (top : Bool)
